@@ -19,6 +19,7 @@ import (
 	"sort"
 	"strconv"
 	"strings"
+	"sync"
 	"syscall"
 	"testing"
 	"time"
@@ -35,7 +36,26 @@ type server struct {
 	home    string // sandbox/recv: STS_HOME of the receiver
 	sources []string
 	keys    []string
-	log     *bytes.Buffer
+	log     *lockedBuffer
+	exited  chan struct{}
+}
+
+// lockedBuffer: the child's output is written by exec's copier while the harness reads it.
+type lockedBuffer struct {
+	mu sync.Mutex
+	b  bytes.Buffer
+}
+
+func (l *lockedBuffer) Write(p []byte) (int, error) {
+	l.mu.Lock()
+	defer l.mu.Unlock()
+	return l.b.Write(p)
+}
+
+func (l *lockedBuffer) String() string {
+	l.mu.Lock()
+	defer l.mu.Unlock()
+	return l.b.String()
 }
 
 var caseNo int
@@ -75,7 +95,7 @@ func startServer(t *vt.T, sources, keys []string) *server {
 	if err != nil {
 		t.Skip(err.Error())
 	}
-	s := &server{sandbox: sb, home: filepath.Join(sb, "area", "recv"), sources: sources, keys: keys, log: &bytes.Buffer{}}
+	s := &server{sandbox: sb, home: filepath.Join(sb, "area", "recv"), sources: sources, keys: keys, log: &lockedBuffer{}}
 	// canaries around the receiver's roots
 	for _, p := range []string{"canary.txt", "area/canary.txt", "area/other/secret.txt", "area/recv/canary.txt", "area/recv/data/canary.txt"} {
 		os.MkdirAll(filepath.Join(sb, filepath.Dir(p)), 0755)
@@ -108,6 +128,8 @@ func startServer(t *vt.T, sources, keys []string) *server {
 	if err := s.cmd.Start(); err != nil {
 		t.Skip("start: " + err.Error())
 	}
+	s.exited = make(chan struct{})
+	go func() { s.cmd.Wait(); close(s.exited) }()
 	deadline := time.Now().Add(5 * time.Second)
 	for {
 		c, err := net.DialTimeout("tcp", fmt.Sprintf("127.0.0.1:%d", s.port), 100*time.Millisecond)
@@ -121,13 +143,31 @@ func startServer(t *vt.T, sources, keys []string) *server {
 		}
 		time.Sleep(10 * time.Millisecond)
 	}
+	// the port answers - but is it OUR receiver? Another process may have taken the port between
+	// the probe and the start (ours then failed to bind and is gone, or is about to go)
+	time.Sleep(40 * time.Millisecond)
+	bindFailed := strings.Contains(s.log.String(), "address already in use")
+	select {
+	case <-s.exited:
+		bindFailed = true
+	default:
+	}
+	if bindFailed {
+		// (a receiver that cannot bind logs the error and stays alive)
+		s.stop()
+		t.Skip("the receiver could not bind its port (taken by another process): " + tail(s.log.String(), 300))
+	}
 	return s
 }
 
 func (s *server) stop() {
 	if s.cmd != nil && s.cmd.Process != nil {
 		s.cmd.Process.Kill()
-		s.cmd.Wait()
+		if s.exited != nil {
+			<-s.exited
+		} else {
+			s.cmd.Wait()
+		}
 	}
 	os.RemoveAll(s.sandbox)
 }
